@@ -48,6 +48,11 @@ def toks_text(toks):
     return " ".join(t.s for t in toks)
 
 
+def arg_text(toks):
+    """macro argument as text, integer literals in canonical spelling"""
+    return " ".join((("0x%x" % t.v if t.v > 255 else str(t.v)) + (t.suf or "")) if t.k == "int" else t.s for t in toks)
+
+
 # =========================================================================== parser
 
 class XP(K.P):
@@ -320,7 +325,7 @@ class Fn(object):
 class Impl(object):
     def __init__(self, gens, trait, selfty, header, via, mod, rel):
         self.gens, self.trait, self.selfty, self.header, self.via, self.mod, self.rel = gens, trait, selfty, header, via, mod, rel
-        self.fns, self.order = {}, []
+        self.fns, self.order, self.assoc = {}, [], []
 
 
 class Macro(object):
@@ -603,11 +608,13 @@ class Items(object):
                     j = i
                     while not is_p(toks[j], ";"):
                         j += 1
+                    p = XP(toks, i + 2)
+                    gens = [g for g, _ in p.generics()]
+                    p.eat_p("=")
                     if impl is None:
-                        p = XP(toks, i + 2)
-                        gens = [g for g, _ in p.generics()]
-                        p.eat_p("=")
                         self.aliases[toks[i + 1].s] = (gens, p.type_())
+                    else:
+                        impl.assoc.append((toks[i + 1].s, p.type_()))
                     i = j + 1
                     continue
                 if is_id(t):
@@ -624,7 +631,7 @@ class Items(object):
                             self.parse_items(inner, 0, len(inner), via, impl, mod)
                         else:
                             body, args = self.expand(name, inner)
-                            row = (name, [toks_text(a) for a in args])
+                            row = (name, [arg_text(a) for a in args])
                             if impl is None:
                                 self.invocations.append((mod, via[0] if via else "", row[0], row[1]))
                             self.parse_items(body, 0, len(body), row, impl, mod)
@@ -918,7 +925,7 @@ SCALAR_BIN = {"|": "{0} ||| {1}", "&": "{0} &&& {1}", "^": "{0} ^^^ {1}"}
 # traits that are deliberately NOT translated (no counterpart in the model; not used by the algorithms)
 SKIP_TRAITS = {
     "Debug": "formatting only", "PartialEq": "test/debug comparison (`_mm_cmpeq_*` are not modelled)", "Eq": "marker",
-    "Machine": "associated types / `instance()`: tied by tools/inventory_dispatch.py (CC.Gen.Dispatch)",
+    "Machine": "`instance()` only; the associated types are listed in machine_type_rows",
 }
 PRELUDE = """\
 /-- `x2<W, G>([W; 2])` / `x4<W>([W; 4])` / the `[vec128_storage; n]`, `[vec256_storage; 2]` views: element 0 in the low bits -/
@@ -969,7 +976,9 @@ TRUSTED = """\
                   the list [(0, fun .. => a), (1, fun .. => b[i:=1]), (2, ..)] and `<def>_default : String` (the diverging macro)
     `&mut self`   a method taking `&mut self` returns the final value of `*self`
     parameters    are named a0, a1, .. by position (self first); shared subterms are `let t<k>` in post-order from the result
-  NOT translated  (listed in `skipped_rows`): Debug, PartialEq / Eq (`eq128_s2`), `impl Machine` (dispatch inventory)
+    machines      `impl Machine for M { type u32x4 = T; .. }` ↦ rows (M, u32x4, T with aliases expanded and the S3 / S4 / NI arguments taken out,
+                  S3 argument, S4 argument) in `machine_type_rows`; `pub type SSE2 = SseMachine<..>` ↦ `machine_alias_rows`
+  NOT translated  (listed in `skipped_rows`): Debug, PartialEq / Eq (`eq128_s2`), `Machine::instance()`
 """
 
 
@@ -1991,7 +2000,10 @@ def simdx86_inventory(repo):
                             raise TErr("index match without (distinct) literal arms")
                         arms, consulted, asserts = [], set(), []
                         for p in pats:
-                            ev, binders, root, rty = translate_one(items, types, im, f, flags, p)
+                            try:
+                                ev, binders, root, rty = translate_one(items, types, im, f, flags, p)
+                            except Diverge as dv:
+                                raise TErr("the arm for index %d diverges (%s)" % (p, dv))
                             consulted |= ev.consulted
                             lines, res = render(ev.dag, root)
                             arms.append("(%d, %s)" % (p, fun_text(binders, lines, res, rty, True)))
@@ -2051,7 +2063,40 @@ def simdx86_inventory(repo):
                     rot_rows.append((mangle(im.selfty), fl, trait, fname, f.via[0], margs))
                 else:
                     rot_rows.append((mangle(im.selfty), fl, trait, fname, "fn", []))
-    return dict(defs=defs, errors=errors, skipped=skipped, invocations=items.invocations, rot_rows=rot_rows)
+    # `impl Machine for ..`: which Rust type each machine uses for each associated vector type, and the machine aliases
+    def shape(ty):
+        """(type text without flag arguments, {flag kind: argument text})"""
+        fl = {}
+
+        def go(t):
+            if t[0] != "path":
+                return tstr(t)
+            if t[1] in items.structs and any(g in FLAGVALS for g in items.structs[t[1]][1]):
+                for g, a in zip(items.structs[t[1]][1], t[2]):
+                    if fl.get(g, tstr(a)) != tstr(a):
+                        raise TErr("mixed %s arguments in %s" % (g, tstr(ty)))
+                    fl[g] = tstr(a)
+                return t[1]
+            return t[1] + ("<%s>" % ", ".join(go(a) for a in t[2]) if t[2] else "")
+        return go(ty), fl
+    mach_rows, alias_rows = [], []
+    for im in items.impls:
+        trait = im.trait[1][-1] if im.trait is not None and im.trait[0] == "path" else None
+        if trait != "Machine":
+            continue
+        mname = im.selfty[1][-1] if im.selfty[0] == "path" else "?"
+        for an, aty in im.assoc:
+            try:
+                sh, fl = shape(types.norm(aty, dict((g, T(g)) for g in im.gens)))
+                mach_rows.append((mname, an, sh, fl.get("S3", ""), fl.get("S4", "")))
+            except TErr as ex:
+                errors.append("`%s` / type %s: %s" % (im.header, an, ex))
+    for an in sorted(items.aliases):
+        gens, body = items.aliases[an]
+        if not gens and body[0] == "path" and body[1][-1] in ("SseMachine", "Avx2Machine"):
+            alias_rows.append((an, body[1][-1], [tstr(types.norm(a)) for a in body[2]]))
+    return dict(defs=defs, errors=errors, skipped=skipped, invocations=items.invocations, rot_rows=rot_rows,
+                mach_rows=mach_rows, alias_rows=alias_rows)
 
 
 def toks_flat(s):
@@ -2098,6 +2143,12 @@ def render_lean(inv):
     L.append("/-- impl blocks that are deliberately not translated: (trait, header) -/")
     L.append("def skipped_rows : List (String × String) :=\n  [%s]\n" % ",\n   ".join(
         "(%s, %s)" % (K._lean_str(a), K._lean_str(b)) for a, b in inv["skipped"]))
+    L.append("/-- mod.rs `impl Machine for SseMachine<S3, S4, NI>` / `for Avx2Machine<NI>`: (machine, associated type, the Rust type with aliases expanded and flag arguments removed, its S3 argument, its S4 argument) -/")
+    L.append("def machine_type_rows : List (String × String × String × String × String) :=\n  [%s]\n" % ",\n   ".join(
+        "(%s)" % ", ".join(K._lean_str(x) for x in r) for r in inv["mach_rows"]))
+    L.append("/-- mod.rs `pub type SSE2 = SseMachine<NoS3, NoS4, NoNI>;` …: (alias, machine, arguments) -/")
+    L.append("def machine_alias_rows : List (String × String × List String) :=\n  [%s]\n" % ",\n   ".join(
+        "(%s, %s, [%s])" % (K._lean_str(a), K._lean_str(b), ", ".join(K._lean_str(x) for x in c)) for a, b, c in inv["alias_rows"]))
     L.append("/-- the names of all definitions above, in source order (an added, removed or re-flagged method changes this list) -/")
     names = [d.name for d in inv["defs"]]
     L.append("def def_rows : List String :=\n  [%s]\n" % ",\n   ".join(
